@@ -1197,6 +1197,16 @@ def _rich_req(rng, kind, path):
     return (path, m, q, b)
 
 
+def _same_path_other_method(rng, reqs):
+    """Two of the paths again with another method (same application, same resource, other verb)."""
+    out = []
+    for r in rng.sample(list(reqs), min(2, len(reqs))):
+        r = _rq(r)
+        m = rng.choice([x for x in REQ_METHODS if x.upper() != r[1].upper()])
+        out.append((r[0], m, r[2], r[3] if m in ('POST', 'PUT') else None))
+    return out
+
+
 def gen_levels(rng, kind='D'):
     """A spine of 2..4 levels; every level owns a dispatcher (`cherrypy.popargs` in its forms, nested through
     handler=, or a hand-written `_cp_dispatch`) that consumes 0, 1, 2 or 3 segments and hands over to the next
@@ -1361,6 +1371,8 @@ def gen_batch_levels(rng, n_trees, reqs_per_tree=10):
         kind = 'M' if i % 6 == 5 else 'D'
         spec = gen_levels(rng, kind)
         reqs = [_rich_req(rng, kind, gen_path_levels(rng, spec)) for _ in range(reqs_per_tree)]
+        if kind == 'M':
+            reqs += _same_path_other_method(rng, reqs)
         if i % 12 == 7:
             # application config sections along one of the paths (read by C08; here: walked past)
             segs = [x for x in reqs[0][0].split('/') if x]
@@ -1385,6 +1397,8 @@ def gen_batch(rng, n_trees, reqs_per_tree=8):
             p = gen_path(rng, spec)
             m = rng.choice(REQ_METHODS) if kind == 'M' else rng.choice(['GET', 'GET', 'GET', 'HEAD', 'POST'])
             reqs.append((p, m))
+        if kind == 'M':
+            reqs += [r[:2] for r in _same_path_other_method(rng, reqs)]
         if i % 7 == 3:
             reqs = [(p, m, rng.choice(QUERIES), rng.choice(BODIES) if m in ('POST', 'PUT') else None)
                     for p, m in reqs]
@@ -1887,7 +1901,7 @@ def _run(ctx):
         return
     check_mounts(ctx, [gen_mount_case(ctx.rng) for _ in range(1500)])
     _WORKER_LEAN[0] = ctx.lean
-    jobs = [(ctx.rng.randrange(1 << 30), 1200, 'thorough') for _ in range(48)]
+    jobs = [(ctx.rng.randrange(1 << 30), 900, 'thorough') for _ in range(48)]
     for res in common.parallel_map(_worker, jobs):
         _merge(ctx, res)
     total = sum(1 for _ in enum_small())
